@@ -529,7 +529,7 @@ Definition load_n3_n (n : nat) (lines : list str) (x : db) : db :=
 Definition load_n3 (lines : list str) (x : db) : db := load_n3_n CHUNK lines x.
 
 (* ========================================================================================== *)
-(* parse_turtle (line by line; annotation syntax `{| |}` is not modelled)                      *)
+(* parse_turtle (line by line)                      *)
 Record tst := mkT { t_toks : list str; t_cur : str; t_depth : N; t_uri : bool; t_lit : bool; t_esc : bool; t_skip : bool }.
 
 Definition t_tok (s : tst) : tst :=      (* let trimmed = current.trim(); if !trimmed.is_empty() { push; clear } *)
@@ -581,10 +581,17 @@ Definition clean_turtle_term (term0 : str) : str :=
   let term := trim term0 in
   if starts_with sLTLT term then term
   else if starts_with_c cLT term && ends_with_c cGT term then strip1 term
-  else if starts_with_c cDQ term && ends_with_c cDQ term then
+  else if starts_with_c cDQ term then
     match decode_literal term with
     | Some (v, []) => v
-    | _ => strip1 term
+    | Some (v, rest) =>
+        if starts_with sCC rest then v
+        else if starts_with_c cAT rest then v ++ rest
+        else if Nat.leb 2 (length term) && ends_with_c cDQ term then strip1 term
+        else tm_char cDQ term
+    | None =>
+        if Nat.leb 2 (length term) && ends_with_c cDQ term then strip1 term
+        else tm_char cDQ term
     end
   else tm_char cDQ term.
 
@@ -596,7 +603,38 @@ Definition resolve_query_term (pref : list (str * str)) (term : str) : str :=
     expand_prefixed pref term
   else term.
 
-(* flush_object *)
+(* flush_object: the `{| p o |}` annotation of the object, looked for after a leading quoted literal *)
+Definition sANN_OPEN : str := [cLBRACE; cBAR].
+Definition sANN_CLOSE : str := [cBAR; 125].
+Definition split_annotation (object_raw : str) : str * list (str * str) :=
+  let after_literal :=
+    if starts_with_c cDQ object_raw then
+      match decode_literal object_raw with
+      | Some (_, rest) => (length object_raw - length rest)%nat
+      | None => O
+      end
+    else O in
+  match find_sub sANN_OPEN (skipn after_literal object_raw) with
+  | Some (before, after) =>
+      let obj := trim (firstn after_literal object_raw ++ before) in
+      match find_sub sANN_CLOSE after with
+      | Some (content, _) =>
+          match split_first_ws (trim content) with
+          | Some (a, b) => (obj, [(a, b)])
+          | None => (obj, [])
+          end
+      | None => (object_raw, [])
+      end
+  | None => (object_raw, [])
+  end.
+
+Definition ttl_annotate (pref : list (str * str)) (s p o : str) (x : db) (ann : str * str) : db :=
+  let qt_str := sQOPEN ++ s ++ cSP :: p ++ cSP :: o ++ sQCLOSE in
+  let (x1, qi) := encode_star x qt_str in
+  let (x2, pi) := encode_star x1 (resolve_query_term pref (clean_turtle_term (fst ann))) in
+  let (x3, oi) := encode_star x2 (resolve_query_term pref (clean_turtle_term (snd ann))) in
+  add_triple x3 (qi, pi, oi).
+
 Definition ttl_flush (x : db) (subj pred : option str) (objs : list str) : db * list str :=
   match subj, pred with
   | Some s_raw, Some p_raw =>
@@ -604,19 +642,23 @@ Definition ttl_flush (x : db) (subj pred : option str) (objs : list str) : db * 
       | [] => (x, objs)
       | _ =>
           let object_raw := join_sp (rev objs) in
-          let s := resolve_query_term (d_pref x) (clean_turtle_term s_raw) in
-          let p := resolve_query_term (d_pref x) (clean_turtle_term p_raw) in
-          let o := resolve_query_term (d_pref x) (clean_turtle_term object_raw) in
-          if starts_with sLTLT s || starts_with sLTLT o then
-            let (x1, si) := encode_star x s in
-            let (x2, pi) := encode_star x1 p in
-            let (x3, oi) := encode_star x2 o in
-            (add_triple x3 (si, pi, oi), [])
-          else
-            let (x1, si) := db_encode x s in
-            let (x2, pi) := db_encode x1 p in
-            let (x3, oi) := db_encode x2 o in
-            (add_triple x3 (si, pi, oi), [])
+          let (object_part, anns) := split_annotation object_raw in
+          let pref := d_pref x in
+          let s := resolve_query_term pref (clean_turtle_term s_raw) in
+          let p := resolve_query_term pref (clean_turtle_term p_raw) in
+          let o := resolve_query_term pref (clean_turtle_term object_part) in
+          let xm :=
+            if starts_with sLTLT s || starts_with sLTLT o then
+              let (x1, si) := encode_star x s in
+              let (x2, pi) := encode_star x1 p in
+              let (x3, oi) := encode_star x2 o in
+              add_triple x3 (si, pi, oi)
+            else
+              let (x1, si) := db_encode x s in
+              let (x2, pi) := db_encode x1 p in
+              let (x3, oi) := db_encode x2 o in
+              add_triple x3 (si, pi, oi) in
+          (fold_left (ttl_annotate pref s p o) anns xm, [])
       end
   | _, _ => (x, objs)
   end.
